@@ -6,6 +6,10 @@ so that a hang is the outcome `hang` of one case):
   e2e      real App.Run, one component with one tagged field (value / prop / prefix / wire), RawLoader config
   strconv  strconv2.ParseAny / FormatAny against Model/Strconv.v
   format   values read back from the real Configure: validates the generator's path -> value table and format_any
+  hist     ONE Configure over time: (resolve | Configure.Set | Configure.Get)* - the same placeholders resolved before and
+           after a Set on the same key (any letter case), on a parent path, on a child path; through the real ${} processor
+           called directly, through a new App.Run per resolution on the shared Configure, or for successive components of
+           one App.Run; model = Model/ConfigStore.v (vget / vset, viper's override and config registers)
 
 Facts probe (every run): `value:"${k}"` with `k: 1000000.0` through a real App.Run; the TagVal right after the ${} processor
 tells which variant of the callback the tree has - "1e+06" (strconv2.FormatAny, unrepaired) or "1000000" (repair D-C17g,
@@ -546,6 +550,231 @@ def gen_strconv_text(rng):
     return "".join(rng.choice(alpha) for _ in range(rng.choice([1, 2, 3, 4, 6, 9])))
 
 
+
+# ------------------------------------------------------------------------------------------------
+# histories on one Configure: (resolve | set | get)*
+
+HKEYS = ["server.port", "server.host", "log.level", "db.dsn", "env", "name", "a.b.c", "feature.x", "host", "port"]
+
+
+def rand_case(rng, s):
+    return "".join(ch.upper() if rng.random() < 0.35 else ch for ch in s)
+
+
+def to_val(v):
+    """generator value -> the driver's Val JSON (what is handed to Configure.Set)"""
+    if v is None:
+        return {"t": "null"}
+    if v is True or v is False:
+        return {"t": "bool", "b": v}
+    if isinstance(v, int):
+        return {"t": "int", "n": str(v)}
+    if isinstance(v, tuple):
+        return {"t": "float", "n": "%de%d" % (v[1], v[2])}
+    if isinstance(v, str):
+        return {"t": "str", "s": hx(v)}
+    if isinstance(v, list):
+        return {"t": "list", "l": [to_val(x) for x in v]}
+    return {"t": "map", "m": [[hx(k), to_val(x)] for k, x in v.items()]}
+
+
+def gen_set_value(rng, depth=0):
+    r = rng.random()
+    if r < 0.35:
+        return rng.choice(WORDS[:-1] + ["gateway", "warn", "debug"])
+    if r < 0.55:
+        return rng.choice([0, 1, 7, -3, 8080, 9090, 65535])
+    if r < 0.62:
+        return norm_dec(*rng.choice([(15, -1), (25, -2), (1, 6), (1, -5), (314159, -5)]))
+    if r < 0.70:
+        return rng.choice([True, False])
+    if r < 0.76:
+        return None
+    if r < 0.82:
+        return rng.choice([{}, []])
+    if r < 0.86:
+        return ""
+    if r < 0.90:
+        return "${" + rng.choice(KEYS) + rng.choice(["", ":d"]) + "}"
+    if r < 0.95 or depth >= 1:
+        return [rng.choice([1, 2, "a", "b c", True]) for _ in range(rng.randint(1, 3))]
+    return {rand_case(rng, k): gen_set_value(rng, depth + 1) for k in rng.sample(KEYS, rng.randint(1, 3))}
+
+
+def gen_hist_set(rng, focus):
+    f = rng.choice(focus)
+    segs = f.split(".")
+    r = rng.random()
+    if r < 0.40 or (len(segs) == 1 and r < 0.65):
+        return {"op": "set", "key": rand_case(rng, f), "val": gen_set_value(rng)}
+    if r < 0.65:
+        # a PARENT path gets a map that holds the rest of the key (keys in any letter case)
+        i = rng.randint(1, len(segs) - 1)
+        v = gen_set_value(rng, 1)
+        for sg in reversed(segs[i:]):
+            m = {rand_case(rng, sg): v}
+            if rng.random() < 0.3:
+                k2 = rng.choice(KEYS)
+                if k2.lower() != sg.lower():
+                    m[k2] = gen_set_value(rng, 1)
+            v = m
+        return {"op": "set", "key": rand_case(rng, ".".join(segs[:i])), "val": v}
+    if r < 0.80:
+        # a CHILD path below the key
+        return {"op": "set", "key": rand_case(rng, f + "." + rng.choice(KEYS)), "val": gen_set_value(rng, 1)}
+    return {"op": "set", "key": rand_case(rng, rng.choice(KEYS + HKEYS)), "val": gen_set_value(rng)}
+
+
+def gen_hist(rng, cid):
+    tree = gen_tree(rng, with_ph=rng.random() < 0.3) if rng.random() < 0.8 else {}
+    loaders = "none" if (not tree and rng.random() < 0.7) else rng.choice(["keep", "drop", "drop"])
+    mode = rng.choice(["proc", "proc", "run", "comp"])
+    pool = HKEYS + [p for p in all_paths(tree) if p and all(sg for sg in p.split("."))][:8]
+    focus = rng.sample(pool, rng.choice([1, 2, 2, 3]))
+    paths = []
+    for f in focus:
+        segs = f.split(".")
+        paths += [f, rand_case(rng, f), f + "." + rng.choice(KEYS)]
+        if len(segs) > 1:
+            paths.append(".".join(segs[:-1]))
+    asts = []
+
+    def new_ast():
+        if rng.random() < 0.7:
+            body = rng.choice(paths)
+            r = rng.random()
+            if r < 0.6:
+                body += ":" + rng.choice(CANON_DEFAULTS)
+            elif r < 0.7:
+                body += ":"
+            ast = [["ph", [["lit", body]]]]
+            if rng.random() < 0.3:
+                ast = [["lit", rng.choice(["p", "x ", "http://", "v="])]] + ast
+            if rng.random() < 0.2:
+                ast.append(["lit", rng.choice(["q", "/api", "."])])
+            return ast
+        return gen_ast(rng, paths, CANON_DEFAULTS)
+
+    steps = []
+    nph = rng.choice([2, 2, 3, 3, 4])
+    for ph in range(nph):
+        if ph == 0 and rng.random() < 0.25:
+            for _ in range(rng.choice([1, 2])):
+                steps.append(gen_hist_set(rng, focus))
+        for _ in range(rng.choice([1, 1, 2])):
+            if asts and ph > 0 and rng.random() < 0.7:
+                ast = rng.choice(asts)                      # the SAME placeholder text once more
+            else:
+                ast = new_ast()
+                asts.append(ast)
+            steps.append({"op": "resolve", "ast": ast})
+        if ph < nph - 1:
+            for _ in range(rng.choice([1, 1, 2])):
+                steps.append(gen_hist_set(rng, focus))
+            if rng.random() < 0.4:
+                f = rng.choice(focus)
+                segs = f.split(".")
+                key = rng.choice([f, rand_case(rng, f), ".".join(segs[:max(1, len(segs) - 1)])])
+                steps.append({"op": "get", "key": key})
+    return {"id": cid, "kind": "hist", "config": cfg_json(tree), "tree": tree, "mode": mode, "loaders": loaders,
+            "steps": steps, "stream": "hist:%s/%s" % (mode, loaders)}
+
+
+def retuple(x):
+    """a case read back from a replay file: JSON turned the ("dec", m, e) triples into lists"""
+    if isinstance(x, list):
+        if len(x) == 3 and x[0] == "dec" and isinstance(x[1], int) and isinstance(x[2], int):
+            return ("dec", x[1], x[2])
+        return [retuple(y) for y in x]
+    if isinstance(x, dict):
+        return {k: retuple(v) for k, v in x.items()}
+    return x
+
+
+def hist_send(c):
+    steps = []
+    for st in c["steps"]:
+        if st["op"] == "resolve":
+            steps.append({"op": "resolve", "tagtext": hx(render(st["ast"]) + ",required=false")})
+        elif st["op"] == "set":
+            steps.append({"op": "set", "key": hx(st["key"]), "val": to_val(st["val"])})
+        else:
+            steps.append({"op": "get", "key": hx(st["key"])})
+    return {"id": c["id"], "kind": "hist", "config": c["config"], "mode": c["mode"], "loaders": c["loaders"], "steps": steps}
+
+
+def hist_term(c, o, fix):
+    """Coq hcase from the steps in the order they were PERFORMED; returns (term, harness problem or None)"""
+    tree = "(VMap [])" if c["loaders"] == "none" else coq_val(c["tree"])
+    first_ast = next((st["ast"] for st in c["steps"] if st["op"] == "resolve"), [])
+    if o["outcome"] in ("hang", "crash"):
+        obs = "[OResolve %s %s true %s]" % (coq_b(render(first_ast)), coq_ast(first_ast), OUTCOME[o["outcome"]])
+        return "mkHCase %d %s %s %s" % (c["id"], tree, obs, "true" if fix else "false"), None
+    if o["outcome"] != "done":
+        return None, "history could not be set up: %s" % o.get("detail", o["outcome"])
+    items = []
+    problem = None
+    for ix, so in zip(o.get("order") or [], o.get("steps") or []):
+        if ix < 0:
+            break          # the start ended after the last observed resolution was complete (a later stage failed): nothing more was performed
+        st = c["steps"][ix]
+        if st["op"] == "resolve":
+            if so["outcome"] == "setup":
+                problem = "the observer after the ${} processor never saw the field"
+                break
+            cin = unhx(so["tagstr"]) if so["outcome"] == "done" else render(st["ast"]).encode()
+            items.append("OResolve %s %s true %s" % (coq_b(cin), coq_ast(st["ast"]), coq_outcome(so)))
+        elif so["outcome"] != "done":
+            problem = "Configure.%s panicked: %s" % (st["op"], so.get("detail"))
+            break
+        elif st["op"] == "set":
+            items.append("OSet %s %s" % (coq_b(st["key"]), coq_val(st["val"])))
+        else:
+            v = obs_val(so["val"])
+            if isinstance(v, tuple) and v[0] == "other":
+                problem = "Configure.Get returned a value of type %s" % v[1]
+                break
+            items.append("OGet %s %s" % (coq_b(st["key"]), coq_val(v)))
+    return "mkHCase %d %s [%s] %s" % (c["id"], tree, "; ".join(items), "true" if fix else "false"), problem
+
+
+HHEADER = ("From Coq Require Import List NArith ZArith.\n"
+           "From IocVerif Require Import Model.Strconv Model.Placeholder Model.ConfigStore Corr.Check_C16.\nImport ListNotations.\n"
+           "Notation case := hcase (only parsing).\n")
+
+
+def hist_corpus():
+    """canonical members of the class: a placeholder resolved, a Set that concerns its key, the placeholder again"""
+    lit = lambda s: ["lit", s]
+    ph = lambda *p: ["ph", list(p)]
+    port = [ph(lit("server.port:8080"))]
+    url = [lit("http://"), ph(lit("server.host:localhost")), lit(":"), ph(lit("server.port:8080")), lit("/"), ph(lit("server.path:"))]
+    cs = []
+    for mode, loaders in (("proc", "none"), ("comp", "keep"), ("run", "drop")):
+        tree = {} if loaders == "none" else {"endpoints": {"localhost": "local-endpoint", "gateway": "remote-endpoint"}}
+        cs.append({"kind": "hist", "tree": tree, "mode": mode, "loaders": loaders, "name": "parent path set after a lookup (%s)" % mode,
+                   "steps": [{"op": "resolve", "ast": port}, {"op": "resolve", "ast": url},
+                             {"op": "set", "key": "server", "val": {"Host": "gateway", "port": 9090, "path": "api"}},
+                             {"op": "resolve", "ast": port}, {"op": "resolve", "ast": url},
+                             {"op": "resolve", "ast": [ph(lit("endpoints."), ph(lit("server.host:localhost")), lit(":none"))]},
+                             {"op": "get", "key": "server.port"}, {"op": "get", "key": "SERVER"}]})
+    level = [ph(lit("Log.Level:info"))]
+    for mode, loaders in (("run", "drop"), ("proc", "keep")):
+        cs.append({"kind": "hist", "tree": {"log": {"level": "warn"}}, "mode": mode, "loaders": loaders,
+                   "name": "another spelling of the key (%s)" % mode,
+                   "steps": [{"op": "resolve", "ast": level}, {"op": "set", "key": "log.level", "val": "debug"},
+                             {"op": "resolve", "ast": level}, {"op": "get", "key": "LOG.level"},
+                             {"op": "set", "key": "LOG.LEVEL", "val": None}, {"op": "resolve", "ast": level}]})
+    whole = [ph(lit("server:none"))]
+    cs.append({"kind": "hist", "tree": {"server": {"port": 1}}, "mode": "proc", "loaders": "keep", "name": "child path set after the parent was read",
+               "steps": [{"op": "resolve", "ast": whole}, {"op": "set", "key": "server.host", "val": "h1"}, {"op": "resolve", "ast": whole},
+                         {"op": "set", "key": "server", "val": {}}, {"op": "resolve", "ast": whole},
+                         {"op": "set", "key": "server", "val": 5}, {"op": "resolve", "ast": [ph(lit("server.port:d"))]}]})
+    for c in cs:
+        c["config"] = cfg_json(c["tree"])
+        c["stream"] = "hist:%s/%s" % (c["mode"], c["loaders"])
+    return cs
+
 # ------------------------------------------------------------------------------------------------
 # corpus: canonical witnesses (defect D-C16, budget boundary, known findings), always run first
 
@@ -612,7 +841,7 @@ def corpus():
     for c in cs:
         if c["kind"] == "e2e":
             c["config"] = cfg_json(c["tree"])
-    return cs + corpus_files("C16")
+    return cs + hist_corpus() + corpus_files("C16")
 
 
 def corpus_files(pid):
@@ -681,7 +910,8 @@ def probe_float_splice(ctx, binp):
 
 
 def run_driver(ctx, binp, cases, tag):
-    send = [{k: v for k, v in c.items() if k not in ("tree", "ast", "stream", "noncanon", "name")} for c in cases]
+    send = [hist_send(c) if c["kind"] == "hist" else
+            {k: v for k, v in c.items() if k not in ("tree", "ast", "stream", "noncanon", "name")} for c in cases]
     rc, res, raw, _loud = vlib.run_json_verbose_share(ctx, binp, {"cases": send, "timeout_ms": 10000}, timeout=3000)
     if res is None:
         raise vlib.GoBuildError("./cmd/c16 (run %s)" % tag, raw[-3000:])
@@ -693,7 +923,7 @@ def evaluate(ctx, binp, cases, tag):
     outs = run_driver(ctx, binp, cases, tag)
     ctx.log("driver ran %d cases (%s)" % (len(cases), tag))
     fix = ctx.float_fix
-    terms, by_id = [], {}
+    terms, hterms, by_id = [], [], {}
     harness_mismatch = []
     nev = 0
     next_sid = [max([c["id"] for c in cases] + [0])]      # ids of the per-key sub-cases of `format` cases
@@ -722,6 +952,15 @@ def evaluate(ctx, binp, cases, tag):
             else:
                 cin = unhx(o.get("tagstr", ""))
             terms.append(mk_term(c["id"], 1, "$", "[]", coq_cfg(tbl), cin, coq_ast(c["ast"]), True, coq_outcome(o), "VNull", fix))
+            by_id[c["id"]] = desc
+            nev += 1
+        elif kind == "hist":
+            term, problem = hist_term(c, o, fix)
+            if problem:
+                harness_mismatch.append(c["id"])
+                desc["harness"] = problem
+            if term:
+                hterms.append(term)
             by_id[c["id"]] = desc
             nev += 1
         elif kind == "strconv":
@@ -755,9 +994,15 @@ def evaluate(ctx, binp, cases, tag):
                                  "FR": "count_infrag", "FE": "count_float_eform", "KC": "kf_codes"}, shard=160)
     for i in range(0, len(out["KC"]) - 1, 2):
         by_id[out["KC"][i]].setdefault("used_noncanonical_default_classes", []).append(out["KC"][i + 1])
-    M = sorted(set(out["M"]) | set(harness_mismatch))
-    return by_id, M, out["V"], {"nt": sum(out["NT"]), "strict": sum(out["ST"]), "infrag": sum(out["FR"]), "evals": nev,
-                                "eform": sum(out["FE"])}
+    hout = {"M": [], "V": [], "NT": [0], "ST": [0], "NR": [0]}
+    if hterms:
+        hout = vlib.coq_eval_sharded(ctx, "cases_c16h_" + tag, HHEADER, hterms,
+                                     {"M": "hmismatches", "V": "hviolations", "NT": "hcount_nontrivial", "ST": "hcount_strict",
+                                      "NR": "hcount_resolves"}, shard=60)
+    M = sorted(set(out["M"]) | set(hout["M"]) | set(harness_mismatch))
+    return by_id, M, out["V"] + hout["V"], {"nt": sum(out["NT"]) + sum(hout["NT"]), "strict": sum(out["ST"]), "infrag": sum(out["FR"]),
+                                            "evals": nev, "eform": sum(out["FE"]), "hist_nt": sum(hout["NT"]),
+                                            "hist_resolves": sum(hout["NR"]), "hist_strict": sum(hout["ST"])}
 
 
 def run(ctx):
@@ -775,10 +1020,11 @@ def run(ctx):
         r = json.load(open(ctx.replay))
         rc = r.get("case", {}).get("case")
         if rc:
-            cases = [dict(rc, id=1)]
+            cases = [dict(retuple(rc), id=1)]
     else:
         n_raw, n_dast, n_e2e, n_sc, n_fmt = (1400, 700, 360, 800, 30) if ctx.quick() else (30000, 20000, 6000, 24000, 600)
         n_flt = 120 if ctx.quick() else 3000
+        n_hist = 400 if ctx.quick() else 5000
         cid = len(cases) + 1
         for _ in range(n_raw):
             gen.append(gen_direct(rng, cid)); cid += 1
@@ -789,6 +1035,8 @@ def run(ctx):
             gen.append(gen_e2e(rng, cid, stream)); cid += 1
         for _ in range(n_flt):
             gen.append(gen_float_case(rng, cid)); cid += 1
+        for _ in range(n_hist):
+            gen.append(gen_hist(rng, cid)); cid += 1
         for _ in range(n_sc):
             gen.append({"id": cid, "kind": "strconv", "s": hx(gen_strconv_text(rng)), "stream": "strconv"}); cid += 1
         for _ in range(n_fmt):
@@ -806,7 +1054,7 @@ def run(ctx):
         b2, M2, V2, cnt2 = evaluate(ctx, binp, gen, "main")
         by_id.update(b2)
         M, V = M + M2, V + V2
-        cnt = {k: cnt[k] + cnt2[k] for k in cnt}
+        cnt = {k: cnt.get(k, 0) + cnt2.get(k, 0) for k in set(cnt) | set(cnt2)}
         cases = cases + gen
     elif gen:
         ctx.notes.append("generated streams skipped: a corpus witness hangs on this tree")
@@ -816,7 +1064,8 @@ def run(ctx):
 
     def size_of(i):
         d = by_id.get(i, {}).get("case", {})
-        return len(d.get("s", "")) + len(d.get("tagtext", "")) + len(d.get("config", "")) + 50 * len(d.get("table", []))
+        return len(d.get("s", "")) + len(d.get("tagtext", "")) + len(d.get("config", "")) + 50 * len(d.get("table", [])) + \
+            sum(40 + len(json.dumps(st)) for st in d.get("steps", []))
 
     V.sort(key=size_of)
     M.sort(key=size_of)
@@ -851,6 +1100,8 @@ def run(ctx):
                 more.append(gen_direct(r2, cid)); cid += 1
             for i in range(300):
                 more.append(gen_e2e(r2, cid, ["ast", "values", "circ"][i % 3])); cid += 1
+            for i in range(300):
+                more.append(gen_hist(r2, cid)); cid += 1
             b2, _, V2, _ = evaluate(ctx, binp, more, "widen%d" % extra)
             found = [b2[i] for i in V2 if not classify_known(b2[i])]
             if found:
@@ -870,6 +1121,16 @@ def run(ctx):
                 s = unhx(c["s"])
                 cands += [dict(c, s=hx(s[:i] + s[i + 1:]), ast=None) for i in range(len(s))]
             elif c["kind"] == "e2e":
+                tree = c["tree"]
+                for k in list(tree):
+                    t2 = {a: b for a, b in tree.items() if a != k}
+                    cands.append(dict(c, tree=t2, config=cfg_json(t2)))
+            elif c["kind"] == "hist":
+                st = c["steps"]
+                cands += [dict(c, steps=st[:i] + st[i + 1:]) for i in range(len(st))
+                          if any(x["op"] == "resolve" for x in st[:i] + st[i + 1:])]
+                if c["mode"] != "proc":
+                    cands.append(dict(c, mode="proc"))
                 tree = c["tree"]
                 for k in list(tree):
                     t2 = {a: b for a, b in tree.items() if a != k}
@@ -896,22 +1157,65 @@ def run(ctx):
     for c in cases:
         if c["kind"] == "direct" and unhx(c["s"]).count(b"{") >= 2:
             nontriv_hashes.add(vlib.stable_hash([c["sig"], c["s"], c["table"]]))
+        elif c["kind"] == "hist":
+            ops = [st["op"] for st in c["steps"]]
+            if "set" in ops and "resolve" in ops[ops.index("set"):] and "resolve" in ops[:len(ops) - ops[::-1].index("set")]:
+                nontriv_hashes.add(vlib.stable_hash([c["config"], c["mode"], c["loaders"], c["steps"]]))
         elif c["kind"] == "e2e" and by_id.get(c["id"], {}).get("observed", {}).get("tagstr") is not None and \
                 unhx(by_id[c["id"]]["observed"].get("tagstr", "")).count(b"{") >= 2:
             nontriv_hashes.add(vlib.stable_hash([c["config"], c["tagkey"], c["tagtext"]]))
     samples = [by_id[i] for i in sorted(by_id) if by_id[i].get("case", {}).get("kind") == "e2e"][:2]
     samples += [by_id[i] for i in sorted(by_id) if by_id[i].get("case", {}).get("stream") == "raw"][-2:]
+    samples += [by_id[i] for i in sorted(by_id) if by_id[i].get("case", {}).get("kind") == "hist"][-1:]
+    hstat = {"histories": 0, "steps": {"resolve": 0, "set": 0, "get": 0}, "resolve_mode": {}, "loaders": {},
+             "a_placeholder_text_resolved_again_after_a_Set": 0, "Set_on": {"the_key_itself": 0, "a_parent_path(map value)": 0,
+                                                                          "a_child_path": 0, "key_spelled_with_upper_case": 0}}
+    for c in cases:
+        if c["kind"] != "hist":
+            continue
+        hstat["histories"] += 1
+        hstat["resolve_mode"][c["mode"]] = hstat["resolve_mode"].get(c["mode"], 0) + 1
+        hstat["loaders"][c["loaders"]] = hstat["loaders"].get(c["loaders"], 0) + 1
+        seen_texts, set_since, again = {}, False, False
+        keys_looked = set()
+        for st in c["steps"]:
+            hstat["steps"][st["op"]] += 1
+            if st["op"] == "resolve":
+                t = render(st["ast"])
+                if t in seen_texts and seen_texts[t]:
+                    again = True
+                seen_texts[t] = False
+                for m in re.findall(r"\$\{([^${}:]+)", t):
+                    keys_looked.add(m.lower())
+            elif st["op"] == "set":
+                for t in seen_texts:
+                    seen_texts[t] = True
+                k = st["key"].lower()
+                if k != st["key"]:
+                    hstat["Set_on"]["key_spelled_with_upper_case"] += 1
+                if k in keys_looked:
+                    hstat["Set_on"]["the_key_itself"] += 1
+                if any(x.startswith(k + ".") for x in keys_looked) and isinstance(st["val"], dict):
+                    hstat["Set_on"]["a_parent_path(map value)"] += 1
+                if any(k.startswith(x + ".") for x in keys_looked):
+                    hstat["Set_on"]["a_child_path"] += 1
+        hstat["a_placeholder_text_resolved_again_after_a_Set"] += 1 if again else 0
     cov = {
         "evaluations": cnt["evals"],
         "distinct_nontrivial": min(cnt["nt"], len(nontriv_hashes)),
         "rule": "direct: el.NewQuote/NewExpr.ReplaceAllContent on raw texts over {sigil,{,},a,b,:} with table callbacks whose values may "
                 "contain placeholders (circular, growing), and on rendered tag ASTs (nesting, repetition, defaults); e2e: App.Run with one "
                 "tagged field (value/prop/prefix/wire) and a RawLoader configuration whose values may contain placeholders or be circular; "
+                "hist: one Configure through (resolve | Configure.Set | Configure.Get)* with the real ${} processor (called directly / a new "
+                "App.Run per resolution on the shared Configure / successive components of one App.Run), non-trivial = resolve, Set, resolve; "
                 "non-trivial = the text handed to the loop contains at least two '{' (several placeholders or nesting); distinct = distinct "
                 "(text, table) resp. (configuration, tag); strict = cases on which the denotational oracle applied",
         "samples": samples,
         "traces_validated_against_impl": sum(1 for c in cases if c["kind"] == "e2e"),
-        "input_distribution": {"streams": streams, "outcomes": outcomes},
+        "input_distribution": {"streams": streams, "outcomes": outcomes, "histories_on_one_Configure": hstat},
+        "history_resolutions": cnt.get("hist_resolves", 0),
+        "history_resolutions_under_the_denotational_oracle": cnt.get("hist_strict", 0),
+        "nontrivial_histories(resolve, Set, resolve)": cnt.get("hist_nt", 0),
         "nontrivial_cases": cnt["nt"],
         "denotational_oracle_applied": cnt["strict"],
         "strconv_cases_in_fragment": cnt["infrag"],
@@ -921,6 +1225,9 @@ def run(ctx):
     return vlib.decide(ctx, static_ok, by_id, M, V, cov, classify_known=classify_known, widen=widen, shrink=shrink,
                        assumptions=["Configure.Get is represented by a path->value table computed by the generator from its own tree "
                                     "(lower-case keys), validated against the real Configure on the `format` stream of this run",
+                                    "histories: Configure.Get / Configure.Set are the model's vget / vset (Model/ConfigStore.v: viper's override and "
+                                    "config registers); Set values are nil, bool, int, float64, string, []any, map[string]any; keys are non-empty, "
+                                    "segments do not start with a sign; the empty path (AllSettings) is not looked up in histories",
                                     "regexp (RE2) on the two placeholder patterns is re-implemented as a byte scanner and compared",
                                     "substitution budget of the repaired code: 1024 (boundary cases 1023/1024/1025 in the corpus)",
                                     "the variant of the ${} callback (float64 spliced by strconv2.FormatAny or, after D-C17g, in plain digits) "
